@@ -90,3 +90,120 @@ Qed.
 
 Lemma sdesc_add_ne c s vs ne : sdesc c s vs ne -> sdesc c (add_ne s) vs (ne + 1).
 Proof. intros []. constructor; simpl; intros; auto. lia. Qed.
+
+(* ---------------------------------------------------------------- SamplesContainer.Merge *)
+
+Definition ins_all (xs : list Z) (h : summ) : summ := fold_left (fun acc v => insert_sample v acc) xs h.
+
+Lemma ins_all_fields xs : forall h,
+  s_min (ins_all xs h) = s_min h /\ s_max (ins_all xs h) = s_max h /\ s_sum (ins_all xs h) = s_sum h /\
+  s_total (ins_all xs h) = s_total h /\ s_ne (ins_all xs h) = s_ne h.
+Proof.
+  induction xs as [|x xs IH]; intros h; simpl; [tauto|].
+  destruct (IH (insert_sample x h)) as (A & B & C & D & E).
+  destruct (insert_sample_fields x h) as (A' & B' & C' & D' & E').
+  unfold ins_all in *. rewrite A, B, C, D, E. tauto.
+Qed.
+
+Lemma ins_all_ovf_stays xs : forall h, s_ovf h = true -> s_ovf (ins_all xs h) = true.
+Proof.
+  induction xs as [|x xs IH]; intros h H; simpl; [assumption|].
+  apply IH. unfold insert_sample. destruct (_ <? _)%N; simpl; auto.
+Qed.
+
+Lemma ins_all_small xs : forall h,
+  (N.of_nat (length (s_samples h) + length xs) <= max_samples)%N ->
+  s_samples (ins_all xs h) = rev xs ++ s_samples h /\ s_ovf (ins_all xs h) = s_ovf h.
+Proof.
+  induction xs as [|x xs IH]; intros h L; simpl; [tauto|].
+  cbn [length] in L.
+  assert (E : insert_sample x h = Summ (s_min h) (s_max h) (s_sum h) (s_total h) (s_ne h) (x :: s_samples h) (s_ovf h)).
+  { unfold insert_sample. destruct (N.ltb_spec (N.of_nat (length (s_samples h))) max_samples); [reflexivity|lia]. }
+  unfold ins_all in *. rewrite E. destruct (IH (Summ (s_min h) (s_max h) (s_sum h) (s_total h) (s_ne h) (x :: s_samples h) (s_ovf h))) as [A B].
+  - simpl. lia.
+  - simpl in *. rewrite A, B. rewrite <- app_assoc. simpl. tauto.
+Qed.
+
+Lemma ins_all_big xs : forall h,
+  (max_samples < N.of_nat (length (s_samples h) + length xs))%N ->
+  (N.of_nat (length (s_samples h)) <= max_samples)%N ->
+  s_ovf (ins_all xs h) = true.
+Proof.
+  induction xs as [|x xs IH]; intros h L M; simpl.
+  - simpl in L. lia.
+  - cbn [length] in L. unfold insert_sample.
+    destruct (N.ltb_spec (N.of_nat (length (s_samples h))) max_samples).
+    + apply IH; simpl; lia.
+    + apply ins_all_ovf_stays. reflexivity.
+Qed.
+
+Lemma sum_list_app a b : sum_list (a ++ b) = sum_list a + sum_list b.
+Proof. induction a; simpl; lia. Qed.
+
+Lemma list_min_app a b : a <> [] -> b <> [] -> list_min (a ++ b) = Z.min (list_min a) (list_min b).
+Proof.
+  induction a as [|x a IH]; [congruence|]. intros _ Hb.
+  destruct a as [|y a].
+  - simpl app. rewrite list_min_cons by assumption. simpl. lia.
+  - change ((x :: y :: a) ++ b) with (x :: ((y :: a) ++ b)).
+    rewrite list_min_cons by (simpl; congruence). rewrite IH by congruence.
+    rewrite (list_min_cons x (y :: a)) by congruence. lia.
+Qed.
+
+Lemma list_max_app a b : a <> [] -> b <> [] -> list_max (a ++ b) = Z.max (list_max a) (list_max b).
+Proof.
+  induction a as [|x a IH]; [congruence|]. intros _ Hb.
+  destruct a as [|y a].
+  - simpl app. rewrite list_max_cons by assumption. simpl. lia.
+  - change ((x :: y :: a) ++ b) with (x :: ((y :: a) ++ b)).
+    rewrite list_max_cons by (simpl; congruence). rewrite IH by congruence.
+    rewrite (list_max_cons x (y :: a)) by congruence. lia.
+Qed.
+
+Lemma len0 {A} (l : list A) : N.of_nat (length l) = 0%N <-> l = [].
+Proof. destruct l; simpl; split; intros; try reflexivity; try discriminate; lia. Qed.
+
+(* merging two described containers gives the container described by the union of the values *)
+Lemma sdesc_merge c a va na b vb nb :
+  sdesc c a va na -> sdesc c b vb nb -> sdesc c (merge_summ a b) (va ++ vb) (na + nb).
+Proof.
+  intros [] []. unfold merge_summ.
+  destruct (N.eqb_spec (s_total b) 0) as [Zb|Zb].
+  - assert (vb = []) by (apply len0; congruence). subst vb. rewrite app_nil_r.
+    constructor; simpl; intros; auto. lia.
+  - assert (Hb : vb <> []) by (intros ->; simpl in *; congruence).
+    set (h1 := Summ _ _ _ _ _ _ _).
+    destruct (ins_all_fields (s_samples b) h1) as (F1 & F2 & F3 & F4 & F5).
+    fold (ins_all (s_samples b) h1).
+    assert (Hab : va ++ vb <> []) by (destruct va; simpl; congruence).
+    constructor.
+    + rewrite F4. simpl. rewrite app_length. lia.
+    + rewrite F5. simpl. lia.
+    + rewrite F3. simpl. rewrite sum_list_app. lia.
+    + intros _. rewrite F1. simpl.
+      destruct (N.eqb_spec (s_total a) 0) as [Za|Za].
+      * assert (va = []) by (apply len0; congruence). subst va. simpl. auto.
+      * assert (Ha : va <> []) by (intros ->; simpl in *; congruence).
+        rewrite list_min_app by assumption. rewrite d_min0, d_min1 by assumption. reflexivity.
+    + intros _. rewrite F2. simpl.
+      destruct (N.eqb_spec (s_total a) 0) as [Za|Za].
+      * assert (va = []) by (apply len0; congruence). subst va. simpl. auto.
+      * assert (Ha : va <> []) by (intros ->; simpl in *; congruence).
+        rewrite list_max_app by assumption. rewrite d_max0, d_max1 by assumption. reflexivity.
+    + intros C. destruct (d_nocollect0 C) as [S1 O1]. destruct (d_nocollect1 C) as [S2 O2].
+      rewrite S2. simpl. rewrite S1, O1, O2. tauto.
+    + intros C L. rewrite app_length in L.
+      destruct (d_small0 C) as [O1 P1]; [lia|]. destruct (d_small1 C) as [O2 P2]; [lia|].
+      destruct (ins_all_small (s_samples b) h1) as [S O].
+      { simpl. rewrite (Permutation_length P1), (Permutation_length P2). lia. }
+      rewrite S, O. simpl. rewrite O1, O2. split; [reflexivity|].
+      rewrite Permutation_app_comm. apply Permutation_app; [assumption|].
+      rewrite <- Permutation_rev. assumption.
+    + intros C L. rewrite app_length in L.
+      destruct (N.le_gt_cases (N.of_nat (length va)) max_samples) as [La|La].
+      * destruct (N.le_gt_cases (N.of_nat (length vb)) max_samples) as [Lb|Lb].
+        -- destruct (d_small0 C La) as [O1 P1]. destruct (d_small1 C Lb) as [O2 P2].
+           apply ins_all_big; simpl; rewrite (Permutation_length P1); [rewrite (Permutation_length P2)|]; lia.
+        -- apply ins_all_ovf_stays. simpl. rewrite (d_big1 C Lb). apply orb_true_r.
+      * apply ins_all_ovf_stays. simpl. rewrite (d_big0 C La). reflexivity.
+Qed.
